@@ -22,6 +22,8 @@ CONSTANTS
   Svc <- %(svc)s
   TagSets <- %(tags)s
   SelTags <- %(tags)s
+  Ops <- %(ops)s
+  MaxInit = %(init)d
   MaxTargets = %(n)d
   MaxCmds = %(cmds)d
   MaxSlots = %(slots)d
@@ -30,7 +32,7 @@ CONSTANTS
 RING_INV = "INVARIANTS WeightInv SlotInv FillInv RingInv CycleInv BoundsInv\nPROPERTY Terminates"
 CFG_INV = "INVARIANTS WeightInv WeighInv BoundsInv\nVIEW View\nCHECK_DEADLOCK FALSE"
 GEN = "INVARIANTS WeightInv WeighInv BoundsInv\nVIEW View\nCHECK_DEADLOCK FALSE"
-GEN_ALL = "INVARIANTS WeightInv WeighInv BoundsInv\nCHECK_DEADLOCK FALSE"     # every script is a case
+GEN_ALL = "INVARIANTS WeightInv WeighInv DelInv BoundsInv\nCHECK_DEADLOCK FALSE"     # every script is a case
 RR_CFG = """SPECIFICATION GenSpec
 CONSTANTS
   Rings <- MCRings
@@ -45,11 +47,11 @@ FILES = ["route/common_test.go", "route/c04_test.go"]
 
 
 def vec_cfg(spec, n, slots, rest, wu="MCWUAll"):
-    return CFG % dict(spec=spec, wu=wu, wc="MCWCNone", svc="MCSvc1", tags="MCTags1", n=n, cmds=0, slots=slots, rest=rest)
+    return CFG % dict(spec=spec, wu=wu, wc="MCWCNone", svc="MCSvc1", tags="MCTags1", ops="MCOpsWeight", init=n, n=n, cmds=0, slots=slots, rest=rest)
 
 
-def cmd_cfg(spec, n, cmds, wu, wc, rest, tags="MCTags3"):
-    return CFG % dict(spec=spec, wu=wu, wc=wc, svc="MCSvc2", tags=tags, n=n, cmds=cmds, slots=12, rest=rest)
+def cmd_cfg(spec, n, cmds, wu, wc, rest, tags="MCTags3", ops="MCOpsWeight", init=None):
+    return CFG % dict(spec=spec, wu=wu, wc=wc, svc="MCSvc2", tags=tags, ops=ops, init=init or n, n=n, cmds=cmds, slots=12, rest=rest)
 
 
 def run_harness(ctx, cases, what, pick_every=1, timeout=900):
@@ -70,6 +72,7 @@ def run(ctx):
         "effective weights compared with exact rationals to 1e-9 (fabio computes in float64)",
         "round robin is observed through behaviour only: two ring lengths of consecutive lookups from a seed-chosen cursor position; the first ring length and a later window must each hit target i exactly as often as it occupies the ring, and lookup j and j+len(ring) must agree; the ring share of a target is accepted when it is exact (count/len = weight) or within the slot bounds floor(10^4 w)-1 .. ceil(10^4 w), at least one slot iff w > 0",
         "`route weight` with w <= 0 removes the fixed weight (documented: 'w <= 0 means no fixed weighting'); the expected split is that of the configuration after the LAST command of the script (scripts with weight > 0 then weight 0 / negative are cases of their own)",
+        "histories: after up to 2 `route add` lines any 2 (thorough 3) further commands out of route add / route del <svc> <src> / route weight (weights {dyn, 50 %, 100 %}, 2 services) - every script is a case; the expected weights, ring shares and cycles are those of the targets the route has at the end, whatever state earlier commands left behind",
         "several routes in one table (same path on different hosts, ':port' routes): lookups are interleaved following every schedule of up to 4 (thorough 5) steps over 3 routes, repeated until every route has seen two ring lengths; each route's own consecutive lookups must form exact cycles and be periodic with its ring length",
         "long histories: the cursor is a natural number (WeightsRR!PeriodicAtAnyCount); an OPTIONAL probe positions the real counter (uint64 field 'total' of Route, found by reflection; skipped and counted when absent) a few lookups below 2^32, 2^32+2^31 and 2^63 and requires the next three ring lengths of lookups to form exact cycles and be periodic; the wrap of the 64-bit counter itself (2^64 lookups) is outside the claim",
         "random picker: the statistical share is not checked; with the random source replaced by a counter every ring index is drawn once and the picks must be exactly the ring's members",
@@ -111,6 +114,10 @@ def run(ctx):
     # script of <=2 commands is a case (no view), the split must be that of the LAST configuration
     gens.append(("route weight resets, every script of <=2 commands",
                  cmd_cfg("GenSpec", 2, 2, "MCWUSmall", "MCWCReset", GEN_ALL, tags="MCTags2")))
+    # histories of add / del / weight on one route (<=2 targets first, then <=2 (thorough 3) further
+    # commands of any kind): the split is a function of the targets the route has at the end
+    gens.append(("histories of add/del/weight, every script",
+                 cmd_cfg("GenSpec", 3, ctx.pick(2, 3), "MCWUHist", "MCWCHist", GEN_ALL, tags="MCTags1", ops="MCOpsAll", init=2)))
     if ctx.thorough:
         gens.append(("route weight resets, 3 targets", cmd_cfg("GenSpec", 3, 2, "MCWUSmall", "MCWCReset", GEN, tags="MCTags2")))
         gens.append(("route weight, 2 commands", cmd_cfg("GenSpec", 2, 2, "MCWUSmall", "MCWCSmall", GEN)))
@@ -125,7 +132,7 @@ def run(ctx):
     # 4. replay into the real code
     # quick tier: weights and ring shares for every vector, the pick cycles for every
     # vector of <=3 targets added with fixed weights and a seed-selected slice of the others
-    r = run_harness(ctx, cases, "C04 replay", pick_every=ctx.pick(20, 10))
+    r = run_harness(ctx, cases, "C04 replay", pick_every=ctx.pick(30, 10))
     if r is None:
         return
     s = r.summary
@@ -134,7 +141,8 @@ def run(ctx):
     ctx.log("large-count probe (cursor positioned below 2^32, 2^32+2^31, 2^63 by reflection): %d routes probed, %d skipped (counter field not found)"
             % (s["large_count_probes"], s["large_count_skipped"]))
     ctx.cover("large-count", evaluations=0, probes=s["large_count_probes"], skipped=s["large_count_skipped"])
-    if s["cases"] == 0 or s["picks"] == 0 or s["rnd_picks"] == 0 or s["via_weight_cmd"] == 0 or s["reset_last"] == 0:
+    ctx.log("histories with add / del after the first adds: %d" % s["histories"])
+    if s["cases"] == 0 or s["picks"] == 0 or s["rnd_picks"] == 0 or s["via_weight_cmd"] == 0 or s["reset_last"] == 0 or s["histories"] == 0:
         ctx.inconclusive("C04: vacuous replay (%s)" % json.dumps(s)[:300])
         return
     ctx.cover(traces_validated_against_impl=s["cases"], evaluations=s["weights"] + s["cycles"] + s["picks"] + s["rnd_picks"],
